@@ -4,6 +4,7 @@
   on the same operations and diffs the two streams.
 -/
 import FrourosModel.Ops
+import FrourosModel.Branch
 namespace Frouros
 open Wire
 
@@ -12,10 +13,15 @@ structure Inst where
   lo : Det FLo
   hi : Det FHi
   tie : Bool
+  /-- branch tags of the exact-carrier run with their counts (coverage measurement only) -/
+  br : List (String × Nat) := []
 
 structure DState where
   insts : List (String × Inst) := []
   aux : Aux := {}
+
+def bump (br : List (String × Nat)) (t : String) : List (String × Nat) :=
+  if br.any (·.1 == t) then br.map (fun (k, c) => if k == t then (k, c + 1) else (k, c)) else br ++ [(t, 1)]
 
 def DState.get? (st : DState) (id : String) : Option Inst := (st.insts.find? (·.1 == id)).map (·.2)
 def DState.set (st : DState) (id : String) (i : Inst) : DState :=
@@ -49,7 +55,7 @@ def handle (st : DState) (line : String) : DState × String :=
   | "n" :: id :: cls :: args =>
     match Det.create (α := Float) cls args, Det.create (α := FLo) cls args, Det.create (α := FHi) cls args with
     | some a, some b, some c =>
-      let i : Inst := ⟨a, b, c, false⟩
+      let i : Inst := { ex := a, lo := b, hi := c, tie := false }
       (st.set id i, renderObs i)
     | _, _, _ => (st, "bad-class")
   | "uq" :: id :: hex :: args =>
@@ -57,7 +63,8 @@ def handle (st : DState) (line : String) : DState × String :=
     match st.get? id, floatOfHex? hex with
     | some i, some v =>
       let tape := parseTape args
-      let i := { i with ex := i.ex.update v tape, lo := i.lo.update v tape, hi := i.hi.update v tape }
+      let ex' := i.ex.update v tape
+      let i := { i with ex := ex', lo := i.lo.update v tape, hi := i.hi.update v tape, br := bump i.br (Det.branch i.ex ex' v) }
       let i := { i with tie := i.tie || !agreeDiscrete i }
       (st.set id i, ".")
     | _, _ => (st, "bad-op")
@@ -65,16 +72,22 @@ def handle (st : DState) (line : String) : DState × String :=
     match st.get? id, floatOfHex? hex with
     | some i, some v =>
       let tape := parseTape args
-      let i := { i with ex := i.ex.update v tape, lo := i.lo.update v tape, hi := i.hi.update v tape }
+      let ex' := i.ex.update v tape
+      let i := { i with ex := ex', lo := i.lo.update v tape, hi := i.hi.update v tape, br := bump i.br (Det.branch i.ex ex' v) }
       let i := { i with tie := i.tie || !agreeDiscrete i }
       (st.set id i, renderObs i)
     | _, _ => (st, "bad-op")
   | ["r", id] =>
     match st.get? id with
     | some i =>
-      let i := { i with ex := i.ex.reset, lo := i.lo.reset, hi := i.hi.reset, tie := false }
+      let i := { i with ex := i.ex.reset, lo := i.lo.reset, hi := i.hi.reset, tie := false, br := bump i.br (Det.resetTag i.ex) }
       (st.set id i, renderObs i)
     | none => (st, "bad-op")
+  | ["bc", id] =>
+    -- branch coverage of instance `id` so far: `tag=count` pairs (measurement only)
+    match st.get? id with
+    | some i => (st, "bc " ++ " ".intercalate (i.br.map (fun (k, c) => k ++ "=" ++ toString c)))
+    | none => (st, "bc")
   | "ks" :: args => (st, cmdKS args)
   | "mmd" :: args => (st, cmdMMD args)
   | "dist" :: args => (st, cmdDist args)
